@@ -43,7 +43,9 @@ NoLineBreak(s) == ~Has(s, "CR") /\ ~Has(s, "LF")
 Slot(id, side, kind, sender) == [ id |-> id, side |-> side, kind |-> kind, sender |-> sender ]
 Slots == {
   Slot("ReqSetName", "req", "name", FALSE), Slot("ReqAddName", "req", "name", FALSE),
-  Slot("ReqSetBytesKVName", "req", "name", FALSE),
+  Slot("ReqSetBytesKVName", "req", "name", FALSE), Slot("ReqSetBytesKName", "req", "name", FALSE),
+  Slot("ReqSetBytesVName", "req", "name", FALSE), Slot("ReqAddBytesKVName", "req", "name", FALSE),
+  Slot("ReqAddBytesKName", "req", "name", FALSE), Slot("ReqAddBytesVName", "req", "name", FALSE),
   Slot("ReqSetValue", "req", "value", FALSE), Slot("ReqAddValue", "req", "value", FALSE),
   Slot("ReqSetCanonicalValue", "req", "value", FALSE),
   Slot("ReqSetHost", "req", "value", FALSE), Slot("ReqSetUserAgent", "req", "value", FALSE),
@@ -60,7 +62,9 @@ Slots == {
   Slot("ReqURIUpdate", "req", "uripart", FALSE), Slot("ReqURISetHost", "req", "value", FALSE),
   Slot("ReqSetHostURI", "req", "value", FALSE), Slot("ReqURISetUsername", "req", "value", FALSE),
   Slot("RespSetName", "resp", "name", FALSE), Slot("RespAddName", "resp", "name", FALSE),
-  Slot("RespSetBytesKVName", "resp", "name", FALSE),
+  Slot("RespSetBytesKVName", "resp", "name", FALSE), Slot("RespSetBytesKName", "resp", "name", FALSE),
+  Slot("RespSetBytesVName", "resp", "name", FALSE), Slot("RespAddBytesKVName", "resp", "name", FALSE),
+  Slot("RespAddBytesKName", "resp", "name", FALSE), Slot("RespAddBytesVName", "resp", "name", FALSE),
   Slot("RespSetValue", "resp", "value", FALSE), Slot("RespAddValue", "resp", "value", FALSE),
   Slot("RespSetCanonicalValue", "resp", "value", FALSE),
   Slot("RespSetContentType", "resp", "value", FALSE), Slot("RespSetServer", "resp", "value", FALSE),
@@ -68,6 +72,13 @@ Slots == {
   Slot("RespSetStatusMessage", "resp", "reason", FALSE), Slot("RespSetProtocol", "resp", "rproto", FALSE),
   Slot("RespSetTrailer", "resp", "trailer", TRUE),
   Slot("ProxyTarget", "connect", "target", TRUE) }
+
+\* Configurations of the header object (RequestHeader/ResponseHeader.DisableNormalizing, and the
+\* Server / Client options DisableHeaderNamesNormalizing that set it).  No operator below takes a
+\* configuration: the contract Delivered(Neutralise) \/ Rejected, and in particular "no line
+\* break inside a field", holds for every slot under every configuration; only the letter case in
+\* which a delivered NAME appears may differ, which the peers' comparison ignores.
+HeaderConfigs == << "normalizing", "normalizing-disabled" >>
 
 \* Slots whose input the library may deliver in an ENCODED form (percent-encoding, base64,
 \* lower-casing): delivery is then not compared byte for byte, every structural obligation stays.
@@ -174,6 +185,7 @@ Vector(kind, s) ==
     wellformed |-> WellFormed(kind, s),
     \* for slots whose API has an error return: the input cannot be carried, the sender must refuse
     senderMustReject |-> ~WellFormed(kind, s) ]
+ConfigRec == [ rec |-> "configs", configs |-> HeaderConfigs ]
 SlotRec(sl) == [ rec |-> "slot", slot |-> sl.id, side |-> sl.side, kind |-> sl.kind, sender |-> sl.sender,
                  encoded |-> sl.id \in EncodedSlots,
                  input |-> <<>>, neutral |-> <<>>, expect |-> <<>>, deliverable |-> FALSE, wellformed |-> FALSE,
